@@ -18,9 +18,9 @@ Lemma tsum_nil w : tsum w [] = 0. Proof. reflexivity. Qed.
 Lemma wonw_range t : 0 <= wonw t <= 1. Proof. unfold wonw. destruct (t_won t); lia. Qed.
 Lemma groww_range t : 0 <= groww t <= 1. Proof. unfold groww. destruct (t_grow t); lia. Qed.
 
-Lemma wonw_mk a b c d e f : wonw (mkTh a b c d e f) = match b with Some _ => 1 | None => 0 end.
+Lemma wonw_mk a b c d e f g h : wonw (mkTh a b c d e f g h) = match b with Some _ => 1 | None => 0 end.
 Proof. reflexivity. Qed.
-Lemma groww_mk a b c d e f : groww (mkTh a b c d e f) = match f with Some _ => 1 | None => 0 end.
+Lemma groww_mk a b c d e f g h : groww (mkTh a b c d e f g h) = match f with Some _ => 1 | None => 0 end.
 Proof. reflexivity. Qed.
 
 Lemma tsum_set_nth w l i t t' : nth_error l i = Some t -> tsum w (set_nth l i t') = tsum w l - w t + w t'.
@@ -78,7 +78,7 @@ Proof.
 Qed.
 
 Lemma decode_thread_cases o :
-  decode_thread o = [] \/ exists r, decode_thread o = [mkTh (sanitize 0 (decode_prog r)) None [] 0 [] None].
+  decode_thread o = [] \/ exists r, decode_thread o = [mkTh (sanitize 0 (decode_prog r)) None [] 0 [] None false None].
 Proof.
   unfold decode_thread. destruct o as [|z r]; [left; reflexivity|].
   destruct z as [|q|q]; try (left; reflexivity).
@@ -172,7 +172,6 @@ Proof.
   pose proof (InvT_nwon_le1 _ _ _ _ I) as LE1.
   set (c := c_core s) in *.
   assert (FR : ~ In (c_nfid c) (keys (frs c))) by (intros A; specialize (K _ A); lia).
-  assert (NW := tsum_set_nth wonw _ _ _ (mkTh [] None [] 0 [] None) ET). clear NW.
   destruct (t_won t) as [sz|] eqn:EW.
   - assert (W1 : wonw t = 1) by (unfold wonw; rewrite EW; reflexivity).
     destruct (t_grow t) as [fr|] eqn:EG.
@@ -230,9 +229,34 @@ Proof.
       assert (groww t' = 0) by (unfold groww; rewrite E2; reflexivity).
       refine (conj _ (conj _ _)); try lia.
       apply Forall_set_nth; [exact GW|]. unfold gw_ok, groww, wonw. rewrite E1, E2. lia. }
+    assert (NOOP : forall t', t_won t' = None -> t_grow t' = None -> Forall act_pos (t_prog t') -> CInv (upd s c i t')).
+    { intros t' E1 E2 E3. destruct (SAME t' E1 E2) as (S1 & S2 & S3).
+      constructor; unfold upd; cbn [c_core c_thr].
+      - rewrite S1. unfold eff in *. rewrite S2. exact I.
+      - exact K.
+      - apply Forall_set_nth; [exact P|]. split; [exact E3|rewrite E1; exact Logic.I].
+      - exact S3. }
+    assert (FIN : forall slot f t', fget (frs c) slot = Some f -> t_won t' = None -> t_grow t' = None ->
+                  Forall act_pos (t_prog t') -> CInv (upd s (finish pm c slot f) i t')).
+    { intros slot f t' GF E1 E2 E3. destruct (SAME t' E1 E2) as (S1 & S2 & S3).
+      pose proof (finish_inv pm _ _ _ _ slot f I GF) as W. unfold finish.
+      assert (WE : InvT pm (nwon (c_thr s)) (fst (bdealloc pm (hp c) (st c) (f_blk f) (f_tr f)))
+                        (eff (c_thr s) (snd (bdealloc pm (hp c) (st c) (f_blk f) (f_tr f)))) (fdel (frs c) slot)).
+      { unfold eff in *. destruct (0 <? ngrow (c_thr s)).
+        - rewrite bdealloc_norm in W. exact W.
+        - destruct (bdealloc pm (hp c) (st c) (f_blk f) (f_tr f)). exact W. }
+      destruct (bdealloc pm (hp c) (st c) (f_blk f) (f_tr f)) as [h1 s1]. cbn [fst snd] in *.
+      constructor; unfold upd; cbn [c_core c_thr hp st frs c_nfid].
+      - rewrite S1. unfold eff in *. rewrite S2. exact WE.
+      - intros k A. apply keys_fdel_In in A. apply K, A.
+      - apply Forall_set_nth; [exact P|]. split; [exact E3|rewrite E1; exact Logic.I].
+      - exact S3. }
+    destruct (t_ats t) as [slot|] eqn:EA.
+    { (* a_st *) destruct (fget (frs c) slot) as [f|] eqn:GF; cbn [fst]; [apply (FIN slot f); auto|apply NOOP; auto]. }
     destruct (t_prog t) as [|[sz|nw] r] eqn:EPg; [cbn [fst]; constructor; assumption| |].
-    + (* busy_x *)
-      inversion PP as [|? ? PA PR]; subst. cbn [act_pos] in PA.
+    + inversion PP as [|? ? PA PR]; subst. cbn [act_pos] in PA.
+      destruct (t_atx t); [|cbn [fst]; apply NOOP; auto; cbn [t_prog]; rewrite EPg; exact PP].
+      (* a_x: the exchange *)
       assert (BE : s_busy (eff (c_thr s) (st c)) = s_busy (st c)) by (unfold eff; destruct (0 <? ngrow (c_thr s)); reflexivity).
       destruct (s_busy (st c)) eqn:B.
       * pose proof (mts_lost_inv pm (nwon (c_thr s)) (hp c) (eff (c_thr s) (st c)) (frs c) (c_nfid c) (c_nfid c) sz sz eq_refl I PA FR) as W.
@@ -255,28 +279,9 @@ Proof.
         -- apply Forall_set_nth; [exact GW|]. unfold gw_ok, groww, wonw. cbn [t_won t_grow]. lia.
     + (* busy_s *)
       inversion PP as [|? ? PA PR]; subst.
-      assert (SKIP : CInv (upd s c i (mkTh r None (t_own t) (S (t_done t)) (t_res t ++ [[Z.of_nat i; Z.of_nat (t_done t); 0]]) None))).
-      { destruct (SAME (mkTh r None (t_own t) (S (t_done t)) (t_res t ++ [[Z.of_nat i; Z.of_nat (t_done t); 0]]) None) eq_refl eq_refl) as (S1 & S2 & S3).
-        constructor; unfold upd; cbn [c_core c_thr].
-        - rewrite S1. unfold eff in *. rewrite S2. exact I.
-        - exact K.
-        - apply Forall_set_nth; [exact P|]. split; cbn [t_prog t_won]; auto.
-        - exact S3. }
-      destruct (pick nw (t_own t)) as [[slot rest]|]; [|exact SKIP].
-      destruct (fget (frs c) slot) as [f|] eqn:GF; [|exact SKIP].
-      pose proof (finish_inv pm _ _ _ _ slot f I GF) as W. unfold finish.
-      assert (WE : InvT pm (nwon (c_thr s)) (fst (bdealloc pm (hp c) (st c) (f_blk f) (f_tr f)))
-                        (eff (c_thr s) (snd (bdealloc pm (hp c) (st c) (f_blk f) (f_tr f)))) (fdel (frs c) slot)).
-      { unfold eff in *. destruct (0 <? ngrow (c_thr s)).
-        - rewrite bdealloc_norm in W. exact W.
-        - destruct (bdealloc pm (hp c) (st c) (f_blk f) (f_tr f)). exact W. }
-      destruct (bdealloc pm (hp c) (st c) (f_blk f) (f_tr f)) as [h1 s1]. cbn [fst snd] in *.
-      match goal with |- CInv (upd _ _ _ ?t') => destruct (SAME t' eq_refl eq_refl) as (S1 & S2 & S3) end.
-      constructor; unfold upd; cbn [c_core c_thr hp st frs c_nfid].
-      * rewrite S1. unfold eff in *. rewrite S2. exact WE.
-      * intros k A. apply keys_fdel_In in A. apply K, A.
-      * apply Forall_set_nth; [exact P|]. split; cbn [t_prog t_won]; auto.
-      * exact S3.
+      destruct (pick nw (t_own t)) as [[slot rest]|]; [|cbn [fst]; apply NOOP; auto].
+      destruct (fget (frs c) slot) as [f|] eqn:GF; [|cbn [fst]; apply NOOP; auto].
+      destruct (f_tr f); cbn [fst]; [apply NOOP; auto|apply (FIN slot f); auto].
 Qed.
 
 (* every state reachable by thread steps in any order *)
@@ -366,39 +371,49 @@ Proof. unfold mt_final. apply run_sched_reach. constructor. Qed.
    A thread is enabled exactly when it has something left to do (nothing in this protocol waits), and every step of an
    enabled thread decreases the remaining work, so every schedule ends with all programs completed. *)
 Definition work (t : thread) : Z :=
-  3 * zlen (t_prog t) + match t_won t with Some _ => (match t_grow t with Some _ => 1 | None => 2 end) | None => 0 end.
+  4 * zlen (t_prog t) + match t_won t with Some _ => (match t_grow t with Some _ => 1 | None => 2 end) | None => 0 end
+  + (match t_ats t with Some _ => 1 | None => 0 end) + (if t_atx t then 0 else 1).
 Definition twork (s : cst) : Z := tsum work (c_thr s).
 
 Lemma work_nonneg t : 0 <= work t.
-Proof. unfold work, zlen. destruct (t_won t); [destruct (t_grow t)|]; lia. Qed.
+Proof. unfold work, zlen. destruct (t_won t); [destruct (t_grow t)|]; destruct (t_ats t); destruct (t_atx t); lia. Qed.
 
-Lemma enabled_work t : t_enabled t = true <-> 0 < work t.
+Lemma enabled_work t : t_enabled t = true -> 0 < work t.
 Proof.
-  unfold t_enabled, work, zlen. destruct (t_won t); [destruct (t_grow t)|]; destruct (t_prog t); cbn [length]; split; intros; try lia; try reflexivity; discriminate.
+  intros EN. unfold t_enabled in EN. unfold work, zlen.
+  destruct (t_won t); [destruct (t_grow t)|]; destruct (t_ats t); destruct (t_atx t); destruct (t_prog t); cbn [length]; try discriminate; lia.
 Qed.
 
 Lemma tstep_work s i t : nth_error (c_thr s) i = Some t -> t_enabled t = true -> twork (fst (tstep s i)) < twork s.
 Proof.
-  intros ET EN. apply enabled_work in EN. unfold tstep. rewrite ET. unfold twork.
+  intros ET EN. unfold tstep. rewrite ET. unfold twork.
   assert (D : forall c t', work t' < work t -> tsum work (c_thr (upd s c i t')) < tsum work (c_thr s)).
   { intros c t' L. unfold upd. cbn [c_thr]. rewrite (tsum_set_nth work _ _ _ _ ET). lia. }
-  unfold work in EN.
+  unfold t_enabled in EN.
   destruct (t_won t) as [sz|] eqn:EW.
   - destruct (t_grow t) as [fr|] eqn:EG.
-    + unfold mk_frame, hnew. cbn [fst]. apply D. unfold work. cbn [t_prog t_won t_grow]. rewrite EW, EG. lia.
+    + unfold mk_frame, hnew. cbn [fst]. apply D. unfold work. cbn [t_prog t_won t_grow t_ats t_atx]. rewrite EW, EG.
+      destruct (t_ats t); destruct (t_atx t); lia.
     + destruct (sz + ptr_sz >? s_cap (st (c_core s))).
-      * cbn [fst]. apply D. unfold work. cbn [t_prog t_won t_grow]. rewrite EW, EG. lia.
+      * cbn [fst]. apply D. unfold work. cbn [t_prog t_won t_grow t_ats t_atx]. rewrite EW, EG. destruct (t_ats t); destruct (t_atx t); lia.
       * unfold mk_frame. destruct (mts_won (hp (c_core s)) (st (c_core s)) sz) as [[h1 s1] g]. cbn [fst].
-        apply D. unfold work. cbn [t_prog t_won t_grow]. rewrite EW, EG. lia.
-  - destruct (t_prog t) as [|[sz|nw] r] eqn:EPg; [unfold zlen in EN; cbn [length] in EN; lia| |].
-    + destruct (s_busy (st (c_core s))).
-      * unfold mk_frame. destruct (mts_lost (hp (c_core s)) (st (c_core s)) sz) as [[h1 s1] g]. cbn [fst].
-        apply D. unfold work. cbn [t_prog t_won t_grow]. rewrite EW, EPg. rewrite !zlen_cons. lia.
-      * cbn [fst]. apply D. unfold work. cbn [t_prog t_won t_grow]. rewrite EW, EPg. rewrite !zlen_cons. lia.
-    + assert (SK : forall own res, work (mkTh r None own (S (t_done t)) res None) < work t).
-      { intros. unfold work. cbn [t_prog t_won t_grow]. rewrite EW, EPg. rewrite !zlen_cons. lia. }
-      destruct (pick nw (t_own t)) as [[slot rest]|]; [|cbn [fst]; apply D, SK].
-      destruct (fget (frs (c_core s)) slot) as [f|]; cbn [fst]; apply D, SK.
+        apply D. unfold work. cbn [t_prog t_won t_grow t_ats t_atx]. rewrite EW, EG. destruct (t_ats t); destruct (t_atx t); lia.
+  - destruct (t_ats t) as [slot|] eqn:EA.
+    + destruct (fget (frs (c_core s)) slot) as [f|]; cbn [fst]; apply D; unfold work; cbn [t_prog t_won t_grow t_ats t_atx];
+        rewrite EW, EA; destruct (t_atx t); lia.
+    + destruct (t_prog t) as [|[sz|nw] r] eqn:EPg; [discriminate| |].
+      * destruct (t_atx t) eqn:EX.
+        -- destruct (s_busy (st (c_core s))).
+           ++ unfold mk_frame. destruct (mts_lost (hp (c_core s)) (st (c_core s)) sz) as [[h1 s1] g]. cbn [fst].
+              apply D. unfold work. cbn [t_prog t_won t_grow t_ats t_atx]. rewrite EW, EA, EX, EPg. rewrite !zlen_cons. lia.
+           ++ cbn [fst]. apply D. unfold work. cbn [t_prog t_won t_grow t_ats t_atx]. rewrite EW, EA, EX, EPg. rewrite !zlen_cons. lia.
+        -- cbn [fst]. apply D. unfold work. cbn [t_prog t_won t_grow t_ats t_atx]. rewrite EW, EA, EX, EPg. lia.
+      * assert (SK : forall own dn res ats, work (mkTh r None own dn res None false ats) < work t).
+        { intros. unfold work. cbn [t_prog t_won t_grow t_ats t_atx]. rewrite EW, EA, EPg. rewrite !zlen_cons.
+          destruct ats; destruct (t_atx t); lia. }
+        destruct (pick nw (t_own t)) as [[slot rest]|]; [|cbn [fst]; apply D, SK].
+        destruct (fget (frs (c_core s)) slot) as [f|]; [|cbn [fst]; apply D, SK].
+        destruct (f_tr f); cbn [fst]; apply D, SK.
 Qed.
 
 Lemma enabled_from_spec : forall l from i, In i (enabled_from l from) ->
@@ -444,11 +459,11 @@ Proof.
     pose proof (tstep_work s i t N E) as D. destruct (tstep s i) as [s1 pt]. cbn [fst] in D. apply IH. lia.
 Qed.
 
-Lemma twork_init ops : twork (cinit ops) = 3 * Z.of_nat (sumlen (c_thr (cinit ops))).
+Lemma twork_init ops : twork (cinit ops) = 4 * Z.of_nat (sumlen (c_thr (cinit ops))) + Z.of_nat (length (c_thr (cinit ops))).
 Proof.
   unfold twork, cinit. cbn [c_thr]. induction ops as [|o l IH]; cbn [flat_map]; [reflexivity|].
   destruct (decode_thread_cases o) as [->|[r ->]]; cbn [app]; [exact IH|].
-  rewrite tsum_cons. cbn [sumlen]. unfold work at 1. cbn [t_prog t_won]. unfold zlen. rewrite IH. lia.
+  rewrite tsum_cons. cbn [sumlen length]. unfold work at 1. cbn [t_prog t_won t_ats t_atx]. unfold zlen. rewrite IH. lia.
 Qed.
 
 (* C19 liveness of the thread-safe storage: under every schedule all threads complete their programs; nobody waits
@@ -457,8 +472,8 @@ Lemma mt_all_done ops :
   Forall (fun t => t_prog t = [] /\ t_won t = None) (c_thr (fst (mt_final ops))).
 Proof.
   unfold mt_final.
-  pose proof (run_sched_done (3 * sumlen (c_thr (cinit ops)) + 2) (cinit ops) (flat_map decode_sched ops) []) as D.
+  pose proof (run_sched_done (4 * sumlen (c_thr (cinit ops)) + length (c_thr (cinit ops)) + 2) (cinit ops) (flat_map decode_sched ops) []) as D.
   rewrite twork_init in D. specialize (D ltac:(lia)).
   apply enabled_from_nil in D. rewrite Forall_forall in *. intros t IN. specialize (D t IN).
-  unfold t_enabled in D. destruct (t_won t); [discriminate|]. destruct (t_prog t); [auto|discriminate].
+  unfold t_enabled in D. destruct (t_won t); [discriminate|]. destruct (t_ats t); [discriminate|]. destruct (t_prog t); [auto|discriminate].
 Qed.
